@@ -100,10 +100,10 @@ def stepTag (a b c d e : Sexp) : Sexp :=
     match dumps t with
     | .error err => .list [.atom "error", ofStrErr err]
     | .ok doc =>
-      let lit := match lookup "ordinal" doc.training with
+      let lit := match lookup .ordinal doc.training with
         | some (.strLit v) => ofCps v
         | _ => .atom "none"
-      .list [.atom "ok", .list (doc.training.map (fun kv => .atom kv.1)), .list (doc.tuning.map (fun kv => .atom kv.1)),
+      .list [.atom "ok", .list (doc.training.map (fun kv => .atom kv.1.name)), .list (doc.tuning.map (fun kv => .atom kv.1.name)),
              lit, ofLoad (loads doc), ofLoad (loadsStrict doc)]
   | _, _, _, _, _ => .atom "bad-op"
 
